@@ -93,6 +93,30 @@ fn answer(line: &str) -> String {
                 _ => bad,
             }
         }
+        // substeval <e> <scalar> <closed r> (val (name 0xv bits)…): substitute, bind the remaining scalars, evaluate
+        ("substeval", [e, s, r, vals]) => {
+            let sc = s.list().and_then(|l| if l.first()?.atom()? == "s" { read_scalar(&l[1..]) } else { None });
+            let vs: Option<Vec<(il::Scalar, Constant)>> = vals.list().and_then(|l| {
+                l.iter()
+                    .skip(1)
+                    .map(|x| {
+                        let t = x.list()?;
+                        let c = Constant::new_big(t[1].nat()?, t[2].usize()?);
+                        Some((il::scalar(t[0].atom()?, t[2].usize()?), c))
+                    })
+                    .collect()
+            });
+            match (read_expr(e), sc, read_expr(r), vs) {
+                (Some(e), Some(s), Some(r), Some(vs)) => res_const(catch(|| {
+                    let mut cur = e.replace_scalar(&s, &r)?;
+                    for (n, c) in &vs {
+                        cur = cur.replace_scalar(n, &E::Constant(c.clone()))?;
+                    }
+                    eval(&cur)
+                })),
+                _ => bad,
+            }
+        }
         _ => bad,
     }
 }
@@ -429,6 +453,24 @@ fn gen_subst(rng: &mut Rng, em: &mut Emit, tier: Tier) {
         let repl = gen_leafy(rng, rb);
         let cls = format!("subst/{}/{}", if scalars.contains(&target) { "present" } else { "absent" }, if repl.bits() == target.bits() { "samewidth" } else { "otherwidth" });
         em.case(&cls, format!("subst {} {} {}", expr_str(&e), fvh::fil::scalar_str(&target), expr_str(&repl)));
+        // the same substitution with a CLOSED replacement, all remaining scalars bound, then evaluated: here the
+        // specification has an opinion (the value of `e` with the scalar bound to the value of the replacement)
+        let closed = gen_tree(rng, target.bits(), 1, false);
+        let mut names: Vec<il::Scalar> = scalars.clone();
+        names.sort();
+        names.dedup();
+        let vals: Vec<String> = names
+            .iter()
+            .map(|sc| {
+                let v = if rng.chance(1, 3) { boundary_values(rng, sc.bits())[rng.below(4) as usize].clone() } else { rand_big(rng, sc.bits()) };
+                format!("({} 0x{:x} {})", sc.name(), v, sc.bits())
+            })
+            .collect();
+        let ecls = format!("substeval/{}", if scalars.contains(&target) { "present" } else { "absent" });
+        em.case(
+            &ecls,
+            format!("substeval {} {} {} (val {})", expr_str(&e), fvh::fil::scalar_str(&target), expr_str(&closed), vals.join(" ")),
+        );
     }
 }
 
